@@ -318,7 +318,7 @@ func C14(op Opts) *Out {
 	for _, n := range []int{16, 32, 64} {
 		seeds = append(seeds, make([]byte, n), bytes.Repeat([]byte{0xff}, n))
 		for i := 0; i < n; i++ {
-			for _, v := range []byte{0x01, 0x80, 0xff} {
+			for _, v := range []byte{0x01, 0x80, 0xff, 0x0a, 0x0d, 0x20} { // incl. line-end and blank bytes
 				s := make([]byte, n)
 				s[i] = v
 				seeds = append(seeds, s)
@@ -465,6 +465,27 @@ func C14(op Opts) *Out {
 				o.Families["bad-key-material"]++
 				if k, err := hdkeychain.NewKeyFromString(mk(kd)); err == nil {
 					o.Add(name, "accepted out-of-range / off-curve key material as "+k.String(), "parse-accepts-bad-key")
+				}
+			}
+			// over-long payloads with a checksum that matches them: serialised keys are exactly 78+4 bytes
+			for _, extra := range [][]byte{{0}, {1}, {0, 0, 0, 0}, {9, 9, 9, 9, 9, 9, 9, 9}} {
+				for _, kd := range [][]byte{append([]byte{0}, ser256(big.NewInt(1))...), append([]byte{2}, ser256(curve.Gx)...)} {
+					o.Evaluations++
+					o.Families["over-long"]++
+					b := append([]byte{}, config.ChainParams.HDPrivateKeyID[:]...)
+					if kd[0] != 0 {
+						b = append([]byte{}, config.ChainParams.HDPublicKeyID[:]...)
+					}
+					b = append(b, 1, 1, 2, 3, 4, 0, 0, 0, 5)
+					b = append(b, bytes.Repeat([]byte{7}, 32)...)
+					b = append(b, kd...)
+					b = append(b, extra...)
+					h1 := sha256.Sum256(b)
+					h2 := sha256.Sum256(h1[:])
+					str := b58enc(append(b, h2[:4]...))
+					if k, err := hdkeychain.NewKeyFromString(str); err == nil {
+						o.Add(fmt.Sprintf("over-long payload (+%d bytes)", len(extra)), "accepted a serialisation with surplus bytes as "+k.String(), "parse-accepts-corrupt")
+					}
 				}
 			}
 			good := mk(append([]byte{0}, ser256(big.NewInt(1))...))
